@@ -189,6 +189,7 @@ def pastRange (maxrange : Option Nat) (pos : Nat) : Bool :=
   | some m => decide (pos > m)
   | none => false
 
+set_option linter.unusedVariables false in
 /-- The `while True` loop over `pos`. -/
 def artLoop (maxrange : Option Nat) (f : PyFile) (pos : Nat) : Py (List Hit × PyFile) :=
   if pastRange maxrange pos then .ok ([], f)
@@ -217,6 +218,11 @@ def iterArtifactkit (f : PyFile) (start : Option Int) (maxrange : Option Nat) : 
     | .ok (_, f') => artLoop maxrange f' f'.tell
 
 /-! ### Specification -/
+
+/-- position a scan starts from: `start_offset` if given (non-negative), else the current file position. -/
+def startPos (f : PyFile) : Option Int → Nat
+  | none => f.pos
+  | some s => s.toNat
 
 /-- all `i` with `i + |needle| ≤ |hay|` such that `hay[i:]` starts with `needle`, ascending. -/
 def occ (hay needle : Bytes) : List Nat :=
